@@ -72,6 +72,7 @@ func (sc *Scenario) sexp() string {
 }
 
 type lane struct {
+	idx   int
 	ops   []Op
 	next  int
 	actor *Actor
@@ -80,6 +81,7 @@ type lane struct {
 
 type Result struct {
 	Line    string
+	Sched   []string
 	Choices []int
 	Widths  []int
 	Steps   int
@@ -87,7 +89,7 @@ type Result struct {
 }
 
 // chooser returns an index in [0,n).
-type chooser func(step int, n int) int
+type chooser func(step int, labels []string) int
 
 func runSchedule(sc *Scenario, choose chooser, maxSteps int) Result {
 	e := &Env{sc: sc, pending: map[int64]string{}, subs: map[int]*subRT{}, updaters: map[int]resolve.SubscriptionUpdater{},
@@ -114,7 +116,7 @@ func runSchedule(sc *Scenario, choose chooser, maxSteps int) Result {
 	e.sched.Changes(nil)
 	lanes := make([]*lane, len(sc.Lanes))
 	for i, l := range sc.Lanes {
-		lanes[i] = &lane{ops: l}
+		lanes[i] = &lane{idx: i, ops: l}
 	}
 	opn := 0
 	ticks := 0
@@ -124,6 +126,7 @@ func runSchedule(sc *Scenario, choose chooser, maxSteps int) Result {
 			kind  int // 0 start lane, 1 release actor
 			lane  *lane
 			actor *Actor
+			label string
 		}
 		var cands []cand
 		laneActors := map[*Actor]bool{}
@@ -144,7 +147,7 @@ func runSchedule(sc *Scenario, choose chooser, maxSteps int) Result {
 					e.mu.Unlock()
 				}
 				if startable {
-					cands = append(cands, cand{kind: 0, lane: l})
+					cands = append(cands, cand{kind: 0, lane: l, label: "L" + strconv.Itoa(l.idx)})
 				}
 			}
 		}
@@ -152,13 +155,21 @@ func runSchedule(sc *Scenario, choose chooser, maxSteps int) Result {
 			if a.name == "hb" && ticks >= sc.MaxTicks {
 				continue
 			}
-			cands = append(cands, cand{kind: 1, actor: a})
+			cands = append(cands, cand{kind: 1, actor: a, label: a.name})
 		}
 		if len(cands) == 0 {
 			break
 		}
-		ci := choose(step, len(cands))
+		labels := make([]string, len(cands))
+		for i, c := range cands {
+			labels[i] = c.label
+		}
+		ci := choose(step, labels)
+		if ci < 0 || ci >= len(cands) {
+			ci = 0
+		}
 		res.Choices = append(res.Choices, ci)
+		res.Sched = append(res.Sched, labels[ci])
 		res.Widths = append(res.Widths, len(cands))
 		c := cands[ci]
 		var acted *Actor
